@@ -151,6 +151,11 @@ func (r *Reader) Read(p []byte) (n int, err error) {
 func (r *Reader) Discard() (err error) {
 	for {
 		_, err = io.Copy(ioutil.Discard, &r.raw)
+		if err == nil && r.raw.N != 0 {
+			// io.Copy does not report EOF: the stream ended inside the
+			// payload.
+			err = io.ErrUnexpectedEOF
+		}
 		if err != nil {
 			break
 		}
